@@ -58,6 +58,72 @@ def isFp (bits : Nat) (v : BitVec 64) : Bool := if bits = 16 then isFp16Imm8 v e
 def encFp (bits : Nat) (v : BitVec 64) : BitVec 32 :=
   if bits = 16 then encodeFp16ToImm8 v else if bits = 32 then encodeFp32ToImm8 v else encodeFp64ToImm8 v
 
+/-- `direct <kind>`: format and opcode (registers as the harness uses them: x3, bit 5) -/
+def directKind : String → Option (OffsetFormat × BitVec 32)
+  | "b" => some (immValue .signed 4 0 26 2, 0x14000000#32)
+  | "bl" => some (immValue .signed 4 0 26 2, 0x94000000#32)
+  | "beq" => some (immValue .signed 4 5 19 2, 0x54000000#32)
+  | "cbz" => some (immValue .signed 4 5 19 2, 0xB4000003#32)
+  | "tbz" => some (immValue .signed 4 5 14 2, 0x36280003#32)
+  | "adr" => some (immValue .a64Adr 4 5 21 0, 0x10000003#32)
+  | "adrp" => some (immValue .a64Adrp 4 5 21 12, 0x90000003#32)
+  | _ => none
+
+def aliasOf : String → Option BfAlias
+  | "bfc" => some .bfc | "bfi" => some .bfi | "sbfiz" => some .sbfiz | "ubfiz" => some .ubfiz
+  | "bfxil" => some .bfxil | "sbfx" => some .sbfx | "ubfx" => some .ubfx | _ => none
+def rawOf : String → Option BfOp
+  | "bfm" => some .bfm | "sbfm" => some .sbfm | "ubfm" => some .ubfm | _ => none
+def opcOf : BfOp → BitVec 32
+  | .bfm => 0x33000000#32 | .sbfm => 0x13000000#32 | .ubfm => 0x53000000#32
+
+/-- model answer of `bf <alias> <x> <lsb> <width>` (Rd = 3, Rn = 7; BFC has Rn = 31 in its opcode) -/
+def bfOut (kind : String) (x : Bool) (a b : BitVec 64) : Option String :=
+  let fin (opc : BitVec 32) (rn : BitVec 32) (r : Option (BitVec 32 × BitVec 32)) : String :=
+    match r with
+    | some (immr, imms) => "ok " ++ toHex (bfWord opc x immr imms rn 3#32).toNat
+    | none => "err InvalidImmediate"
+  match aliasOf kind, rawOf kind with
+  | some al, _ =>
+    let r := if al.isInsert then encodeBfi x a b else encodeBfx x a b
+    some (fin (opcOf al.op) (if al == .bfc then 31#32 else 7#32) r)
+  | none, some op => some (fin (opcOf op) 7#32 (encodeBfm x a b))
+  | none, none => none
+
+/-- monitor of `bf`: the property predicate on the word the real assembler emitted -/
+def bfMon (kind : String) (x : Bool) (a b : BitVec 64) (ans : List String) : Option String :=
+  let verdict (ok : Bool) (why : String) := some (if ok then "good" else "BAD " ++ why)
+  let size : BitVec 64 := if x then 64#64 else 32#64
+  match aliasOf kind, rawOf kind with
+  | none, none => none
+  | al?, op? =>
+    let op : BfOp := match al? with | some al => al.op | none => op?.getD .bfm
+    let encodable := match al? with
+      | some _ => aliasEncodable x a b
+      | none => a.ult size && b.ult size
+    match ans with
+    | ["err", "InvalidImmediate"] => verdict (!encodable) "refused-but-encodable"
+    | ["ok", wd] => do
+      let w ← bv32? wd
+      let xb : BitVec 32 := if x then 1#32 else 0#32
+      let immr := ((w >>> 16) &&& 0x3F#32).zeroExtend 64
+      let imms := ((w >>> 10) &&& 0x3F#32).zeroExtend 64
+      let rn : BitVec 32 := if al? == some .bfc then 31#32 else 7#32
+      let shape := (w >>> 31) == xb && ((w >>> 22) &&& 1#32) == xb && (w &&& 0x7F800000#32) == opcOf op &&
+                   (w &&& 31#32) == 3#32 && ((w >>> 5) &&& 31#32) == rn && immr.ult size && imms.ult size
+      if !encodable then verdict false "accepted-but-not-encodable" else
+      if !shape then verdict false "malformed-instruction" else
+      match al? with
+      | none => verdict (immr == a && imms == b) "wrong-fields"
+      | some al =>
+        let regs : List (BitVec 64 × BitVec 64) :=
+          [(0xdeadbeefcafef00d#64, 0x0123456789abcdef#64), (0#64, 0xFFFFFFFFFFFFFFFF#64),
+           (0xFFFFFFFFFFFFFFFF#64, 0x8000000080000001#64), (0x5555555555555555#64, 0xAAAAAAAAAAAAAAAA#64)]
+        let sem := regs.all fun (d, sr) =>
+          bfmExec op x immr imms d (if al == .bfc then 0#64 else sr) == aliasMeaning al x a b d sr
+        verdict (aliasOperands al x immr imms == (a, b) && sem) "does-not-do-what-the-alias-means"
+    | _ => verdict false "unexpected-answer"
+
 /-- model answers for the AArch64 immediate ops -/
 def stepA64 (ws : List String) : Option String :=
   match ws with
@@ -77,6 +143,14 @@ def stepA64 (ws : List String) : Option String :=
   | ["movseq", imm, rd, x] => do
     let imm ← bv64? imm; let rd ← rd.toNat?; let x ← x.toNat?
     some ("seq " ++ hexWords (encodeMovSequence64 imm (BitVec.ofNat 32 rd) (BitVec.ofNat 32 x)))
+  | ["direct", kind, off] => do
+    let (f, opc) ← directKind kind; let off ← bv64? off
+    match dispImmDirect f off with
+    | some m => some ("ok " ++ toHex (opc ||| m).toNat)
+    | none => some "err InvalidDisplacement"
+  | ["bf", kind, x, a, b] => do
+    let x ← x.toNat?; let a ← bv64? a; let b ← bv64? b
+    bfOut kind (x == 1) a b
   | ["lmh", sz, idx] => do
     let sz ← sz.toNat?; let idx ← idx.toNat?
     match encodeLmh (BitVec.ofNat 32 sz) (BitVec.ofNat 32 idx) with
@@ -120,6 +194,29 @@ def monA64 (t : Tables) (ws : List String) : Option String :=
     | ["0"] => verdict (!repr) "refused-but-encodable"
     | ["1", i] => do let i ← i.toNat?; verdict (i < 256 && byteMaskExpand (BitVec.ofNat 8 i) == v) "wrong-imm8"
     | _ => none
+  | "mon_direct" :: kind :: off :: ans => do
+    let (f, opc) ← directKind kind; let off ← bv64? off
+    match ans with
+    | ["err", "InvalidDisplacement"] => verdict (!representable f off) "refused-but-representable"
+    | ["ok", wd] => do
+      let w ← bv32? wd
+      verdict (decode32 f w == off && (w &&& ~~~ fieldMask32 f) == opc) "direct-word-wrong"
+    | _ => verdict false "unexpected-answer"
+  | "mon_bf" :: kind :: x :: a :: b :: ans => do
+    let x ← x.toNat?; let a ← bv64? a; let b ← bv64? b
+    bfMon kind (x == 1) a b ans
+  | "mon_lmh" :: sz :: idx :: ans => do
+    let sz ← sz.toNat?; let idx ← idx.toNat?
+    if sz ≠ 1 ∧ sz ≠ 2 then verdict (ans == ["fail"]) "size-without-element-form-accepted" else
+    match ans with
+    | [ok, lm, h, mx] => do
+      let lm ← lm.toNat?; let h ← h.toNat?; let mx ← mx.toNat?
+      let exists_ := idx < (if sz = 1 then 8 else 4)
+      let lmB := BitVec.ofNat 32 lm
+      let back := lmhIndex (BitVec.ofNat 32 sz) (lmB >>> 1) (lmB &&& 1#32) (BitVec.ofNat 32 h)
+      verdict ((ok == "1") == exists_ && mx == (if sz = 1 then 15 else 31) &&
+               (!exists_ || (back.toNat == idx && lm < 4 && h < 2 && (sz = 1 || lm % 2 == 0)))) "lmh-wrong"
+    | _ => verdict false "unexpected-answer"
   | "mon_movseq" :: imm :: rd :: x :: "seq" :: wordsHex => do
     let imm ← bv64? imm; let rd ← rd.toNat?; let _x ← x.toNat?
     let ws ← wordsHex.mapM bv32?
